@@ -161,6 +161,29 @@ where
                         drive_span(w, tag, args, guard, frame, style)
                     }
                 }
+                "sspan" => {
+                    // a sync `#[emit::span(setup: ..)]` handler whose `setup` makes the incoming traceparent current:
+                    // the setup runs BEFORE the span is created, so the span continues the header's trace
+                    let (tp, cs) = args.split_first()?;
+                    let tp = parse_tp(tp)?;
+                    w.spans.fetch_add(1, Ordering::SeqCst);
+                    let log = w.log.clone();
+                    let emitter = emit::emitter::from_fn(move |evt| {
+                        log.lock().unwrap().push(format!("(done {})", ids_of_props(evt.props())));
+                    });
+                    let rt = emit::runtime::Runtime::build(emitter, RecFilter(w), &w.ctxt, emit::Empty, &w.rng);
+                    let mut ok = Some(());
+                    let mut body = || {
+                        for c in cs {
+                            if run_prog(w, c).is_none() {
+                                ok = None;
+                                return;
+                            }
+                        }
+                    };
+                    setup_span(&rt, tp, &mut body);
+                    ok
+                }
                 "carry" => {
                     let frame = emit::Frame::current(&w.ctxt);
                     std::thread::scope(|s| {
@@ -323,6 +346,34 @@ where
     } else {
         std::thread::scope(|s| s.spawn(move || frame.call(body)).join().ok().flatten())
     }
+}
+
+/// what the `setup:` of `setup_span` returns: the pushed traceparent, entered; left again when it is dropped (after
+/// the span completed)
+struct TpScope(TraceparentCtxt, Option<<TraceparentCtxt as emit::Ctxt>::Frame>);
+impl Drop for TpScope {
+    fn drop(&mut self) {
+        use emit::Ctxt;
+        if let Some(mut f) = self.1.take() {
+            self.0.exit(&mut f);
+            self.0.close(f);
+        }
+    }
+}
+fn enter_tp(tp: Traceparent) -> TpScope {
+    use emit::Ctxt;
+    let (ctxt, mut frame) = tp.push().into_parts();
+    ctxt.enter(&mut frame);
+    TpScope(ctxt, Some(frame))
+}
+
+#[emit::span(rt: rt, setup: move || enter_tp(tp), "s")]
+fn setup_span<E: emit::Emitter, F: Filter, C: emit::Ctxt, T: emit::Clock, R: emit::Rng>(
+    rt: &emit::runtime::Runtime<E, F, C, T, R>,
+    tp: Traceparent,
+    body: &mut dyn FnMut(),
+) {
+    body()
 }
 
 fn parse_tp(tp: &Sexp) -> Option<Traceparent> {
@@ -532,6 +583,15 @@ fn gen_prog(rng: &mut Rng, depth: usize, budget: &mut usize) -> Sexp {
             let mut v = vec![Sexp::num(rng.below(4))];
             v.append(&mut cs);
             Sexp::tagged("pushs", v)
+        }
+        8 if rng.bool() => {
+            let id = |rng: &mut Rng, none_odds: u64| {
+                if rng.chance(1, none_odds) { Sexp::atom("none") } else { Sexp::num(1_000_000 + rng.below(3)) }
+            };
+            let flags = *rng.pick(&[0u64, 1, 1, 1, 3]);
+            let mut v = vec![Sexp::list(vec![id(rng, 8), id(rng, 8), Sexp::num(flags)])];
+            v.append(&mut cs);
+            Sexp::tagged("sspan", v)
         }
         8 => {
             let id = |rng: &mut Rng, none_odds: u64| {
